@@ -546,6 +546,16 @@ pub fn run(a: &Args) -> Report {
             }
         }
     }
+    // two calls on DIFFERENT targets started in the same tick while a peer the node knows has just crashed:
+    // both lookups' requests to it leave in the same tick and expire in the same tick, so both lookups
+    // finish in one and the same tick (several queries done at once, with or without a put waiting)
+    for c1 in CALLS {
+        for c2 in CALLS {
+            for k in if a.quick() { vec![0usize] } else { vec![0usize, 1, 2] } {
+                store_phase.push((Script { seed: mix(a.seed, 0x5a3e71c + store_phase.len() as u64), servers: 3 + (store_phase.len() % 4), x_server: false, calls: vec![(c1, false, 0), (c2, true, 0)] }, Fault::CrashPeer(k)));
+            }
+        }
+    }
     for (i, (s, f)) in store_phase.iter().enumerate() {
         if i as u64 % a.nshards.max(1) != a.shard {
             continue;
